@@ -72,6 +72,30 @@ inductive Resolves (cfg : Config) : String → Prop
   | group {n : String} {g : Group} : findHook cfg n = none → findGroup cfg n = some g →
       (∀ m, m ∈ g.hooks → Resolves cfg m) → Resolves cfg n
 
+/-- `VisitsList cfg d names k`: expanding the list `names`, met under `d` enclosing groups, visits `k`
+members in all — every name counts once each time it is met, a group name then all the members of
+the group one level further down — and no group is entered under MAX_HOOK_GROUP_DEPTH or more
+enclosing groups.  (What `get_hook_rec` counts against its budget, defined without it.) -/
+inductive VisitsList (cfg : Config) : Nat → List String → Nat → Prop
+  | nil {d : Nat} : VisitsList cfg d [] 0
+  | hook {d : Nat} {n : String} {ns : List String} {h : Hook} {k : Nat} :
+      findHook cfg n = some h → VisitsList cfg d ns k → VisitsList cfg d (n :: ns) (k + 1)
+  | group {d : Nat} {n : String} {ns : List String} {g : Group} {k₁ k₂ : Nat} :
+      findHook cfg n = none → findGroup cfg n = some g → d < maxHookGroupDepth →
+      VisitsList cfg (d + 1) g.hooks k₁ → VisitsList cfg d ns k₂ →
+      VisitsList cfg d (n :: ns) (1 + k₁ + k₂)
+
+/-- The name, as a certificate or an account lists it (`d = 0`), resolves within the two limits of
+`get_hook_rec`: no group is entered under MAX_HOOK_GROUP_DEPTH or more enclosing groups, and its
+expansion visits at most MAX_HOOK_GROUP_MEMBERS members (the budget of one `Config::get_hook`). -/
+def ResolvesWithin (cfg : Config) (n : String) : Prop :=
+  ∃ k, VisitsList cfg 0 [n] k ∧ k ≤ maxHookGroupMembers
+
+/-- Every hook or group a certificate or an account names stays within the limits. -/
+def WithinLimits (cfg : Config) : Prop :=
+  (∀ c, c ∈ cfg.certificates → ∀ h, h ∈ c.hooks → ResolvesWithin cfg h) ∧
+  (∀ a, a ∈ cfg.accounts → ∀ h, h ∈ a.hooks → ResolvesWithin cfg h)
+
 /-- `m` is listed in the group that the name `n` denotes (`n` is not shadowed by a hook). -/
 def Member (cfg : Config) (n m : String) : Prop :=
   findHook cfg n = none ∧ ∃ g, findGroup cfg n = some g ∧ m ∈ g.hooks
@@ -142,8 +166,9 @@ inductive Outcome
   | rejected
   deriving Repr, DecidableEq, Inhabited
 
-/-- Must the daemon refuse this (merged) configuration?  Exactly when a reference does not resolve
-or a certificate id is repeated — which is when `build` errs. -/
+/-- Must the daemon refuse this (merged) configuration?  Exactly when a reference does not resolve,
+a certificate id is repeated, or a hook group is nested or visited beyond the limits — which is when
+`build` errs (`Props.C14.rejects_exactly`). -/
 def mustReject (cfg : Config) : Bool := !(build cfg).isOk
 
 /-- The daemon rejected iff it had to. -/
